@@ -424,7 +424,7 @@ def check(run):
     quick = run.tier == "quick"
     found, model_broken = set(), []
     run_corpus(run, found, model_broken)
-    nprog, cap, budget = (16, 60, 100) if quick else (600, 150, 1500)
+    nprog, cap, budget = (32, 60, 100) if quick else (600, 150, 1500)
     depths = [3, 3, 3, 4, 4] if quick else [4, 5, 5, 6, 6, 7]
     specs = make_specs(run.rng, nprog, cap, depths, full=not quick)
     direct_bad = run_stream(run, specs, found, model_broken, "pipeline stream", budget)
